@@ -96,6 +96,7 @@ class Engine:
         self.decomp = {}
         self.known = {}
         self.key_syms = []
+        self.hash_memo = {}
         self.key_consts = []
         self.key_consts_set = set()
 
@@ -111,6 +112,7 @@ class Engine:
         self.decomp = {}
         self.known = {}
         self.key_syms = []
+        self.hash_memo = {}
 
     def _check(self, *assumptions):
         self.queries += 1
@@ -142,6 +144,16 @@ class Engine:
         self.solver.add(options[i])
         self.pos += 1
         return i
+
+    def choose_lazy(self, n, make):
+        """like choose() but constraint i is only built when needed (make(i) -> z3 Bool)"""
+        if self.pos < _len(self.decisions):
+            d = self.decisions[self.pos]
+            i = d[0][d[1]]
+            self.solver.add(make(i))
+            self.pos += 1
+            return i
+        return self.choose([make(i) for i in _range(n)])
 
     def branch(self, cond):
         cond = z3.simplify(cond)
@@ -568,13 +580,25 @@ def _sym_hash(s):
     for t, h in E.key_syms:
         if t.e.get_id() == s.e.get_id():
             return h
+    hit = E.hash_memo.get(s.e.get_id())
+    if hit is not None:
+        return hit[1]
     consts = E.key_consts
-    opts = [s.e == c for c in consts] + [s.e == t.e for t, _ in E.key_syms]
-    opts.append(z3.And(*[z3.Not(o) for o in opts]) if opts else z3.BoolVal(True))
-    i = E.choose(opts)
+    nsyms = _len(E.key_syms)
+    total = _len(consts) + nsyms + 1
+
+    def make(i):
+        if i < _len(consts):
+            return s.e == consts[i]
+        if i < total - 1:
+            return s.e == E.key_syms[i - _len(consts)][0].e
+        return z3.And(*([s.e != c for c in consts] + [s.e != t.e for t, _ in E.key_syms[:nsyms]])) if total > 1 else z3.BoolVal(True)
+
+    i = E.choose_lazy(total, make)
     if i < _len(consts):
+        E.hash_memo[s.e.get_id()] = (s, hash(consts[i]))
         return hash(consts[i])
-    if i < _len(opts) - 1:
+    if i < total - 1:
         return E.key_syms[i - _len(consts)][1]
     h = hash(("symx-key", _len(E.key_syms)))
     E.key_syms.append((s, h))
@@ -663,7 +687,7 @@ def decompose(e, n):
     e = z3.simplify(e)
     if z3.is_int_value(e):
         v = e.as_long() % (256**n)
-        return [z3.IntVal((v >> (8 * (n - 1 - k))) & 0xFF) for k in _range(n)]
+        return [(v >> (8 * (n - 1 - k))) & 0xFF for k in _range(n)]
     key = (e.get_id(), n)
     hit = E.decomp.get(key)
     if hit is not None:
@@ -681,7 +705,7 @@ def decompose(e, n):
 
 def _int_to_bytes_fn(e, n, byteorder):
     if n > 0:
-        bs = decompose(e, n)
+        bs = [_zi(b) for b in decompose(e, n)]
         if byteorder != "big":
             bs = bs[::-1]
         return lambda i: _sel_chain(i, bs)
@@ -847,18 +871,32 @@ class SymReal:
 # --------------------------------------------------------------------------
 # byte strings: symbolic length, content as a function Int -> Int
 # --------------------------------------------------------------------------
+def _zi(x):
+    """byte item (python int or z3 term) as a z3 term"""
+    return z3.IntVal(x) if _isinstance(x, _int) else x
+
+
+def _norm_item(x):
+    """z3 byte term -> python int when it is a numeral"""
+    if _isinstance(x, _int):
+        return x
+    if z3.is_int_value(x):
+        return x.as_long()
+    return x
+
+
 def _items_get(items):
-    """content function of an explicit list of byte terms"""
+    """content function of an explicit list of byte items (python ints or z3 terms)"""
     n = _len(items)
 
     def get(i):
         if not _isinstance(i, _int):
             i = z3.simplify(i)
             if not z3.is_int_value(i):
-                return _sel_chain(i, items) if n else z3.IntVal(0)
+                return _sel_chain(i, [_zi(x) for x in items]) if n else z3.IntVal(0)
             i = i.as_long()
         if 0 <= i < n:
-            return items[i]
+            return _zi(items[i])
         return z3.IntVal(0)
 
     return get
@@ -890,7 +928,7 @@ class SymBytes:
             n = v.as_long()
         if n > limit:
             return None
-        self.items = [z3.simplify(self.get(z3.IntVal(k))) for k in _range(n)]
+        self.items = [_norm_item(z3.simplify(self.get(z3.IntVal(k)))) for k in _range(n)]
         self.length = n
         return self.items
 
@@ -904,8 +942,8 @@ class SymBytes:
         n = _len(b)
         if n == 0:
             return SymBytes(0, lambda i: z3.IntVal(0), [])
-        if n <= 2048:
-            return SymBytes.from_items([z3.IntVal(v) for v in b])
+        if n <= 70000:
+            return SymBytes.from_items(list(b))
         arr = z3.K(z3.IntSort(), z3.IntVal(0))
         for k, v in enumerate(b):
             if v:
@@ -916,6 +954,8 @@ class SymBytes:
         """SymInt value of byte i (i: int | SymInt | z3), with its range fact"""
         if self.items is not None and _isinstance(i, _int):
             v = self.items[i]
+            if _isinstance(v, _int):
+                return v
         else:
             v = z3.simplify(self.get(_z(i)))
         if not z3.is_int_value(v):
@@ -1015,10 +1055,21 @@ class SymBytes:
             # both symbolic: bounded by concretising one length
             n = concretize(la)
             return SymBytes(n, self.get).eq_term(o)
-        conj = [_z(lb) == la]
         ia, ib = self.materialize(), (o.materialize() if not _isinstance(lb, SymInt) else None)
+        if ia is not None and ib is not None:
+            if _len(ia) != _len(ib):
+                return z3.BoolVal(False)
+            conj = []
+            for x, y in zip(ia, ib):
+                if _isinstance(x, _int) and _isinstance(y, _int):
+                    if x != y:
+                        return z3.BoolVal(False)
+                else:
+                    conj.append(_zi(x) == _zi(y))
+            return z3.And(*conj) if conj else z3.BoolVal(True)
+        conj = [_z(lb) == la]
         for i in _range(la):
-            conj.append((ia[i] if ia is not None else self.get(z3.IntVal(i))) == (ib[i] if ib is not None and i < _len(ib) else o.get(z3.IntVal(i))))
+            conj.append((_zi(ia[i]) if ia is not None else self.get(z3.IntVal(i))) == (_zi(ib[i]) if ib is not None and i < _len(ib) else o.get(z3.IntVal(i))))
         return z3.And(*conj)
 
     def __eq__(self, o):
@@ -1174,8 +1225,7 @@ class sym_bytes(metaclass=_BytesMeta):
         if _isinstance(x, SymInt):
             return SymBytes(x, lambda i: z3.IntVal(0))
         if _isinstance(x, (list, tuple)) and any(_isinstance(v, SymInt) for v in x):
-            vals = [_z(v) for v in x]
-            return SymBytes(_len(vals), lambda i: _sel_chain(i, vals))
+            return SymBytes.from_items([_norm_item(_z(v)) if not _isinstance(v, _int) else v for v in x])
         return _bytes(x, *a)
 
     fromhex = _bytes.fromhex
@@ -1488,7 +1538,13 @@ def check_bytes_eq(a, b, msg):
         conj = []
         ia, ib = a.materialize(), b.materialize()
         for k in _range(la.as_long()):
-            c = z3.simplify((ia[k] if ia is not None else a.get(z3.IntVal(k))) == (ib[k] if ib is not None and k < _len(ib) else b.get(z3.IntVal(k))))
+            x = ia[k] if ia is not None else a.get(z3.IntVal(k))
+            y = ib[k] if ib is not None and k < _len(ib) else b.get(z3.IntVal(k))
+            if _isinstance(x, _int) and _isinstance(y, _int):
+                if x != y:
+                    conj.append(z3.BoolVal(False))
+                continue
+            c = z3.simplify(_zi(x) == _zi(y))
             if not z3.is_true(c):
                 conj.append(c)
         if conj:
@@ -1749,7 +1805,12 @@ def _symbytes_decode(self, encoding="utf-8", errors="strict"):
                     if errors == "strict":
                         raise UnicodeDecodeError("ascii", b"\x80", 0, 1, "ordinal not in range(128)")
                 else:
-                    raise Unsupported("decoding non-ASCII utf-8 from symbolic bytes")
+                    # a byte >= 0x80: whether the whole string is valid UTF-8 depends on its neighbours;
+                    # both outcomes are explored (over-approximation of the decoder)
+                    E.fresh += 1
+                    if Bool("utf8_invalid!%d" % E.fresh):
+                        raise UnicodeDecodeError("utf-8", b"\x80", 0, 1, "invalid start byte")
+                    return SymStr(SymBytes(n, self.get, self.items), "utf8")
     else:
         raise Unsupported("decode(%r)" % encoding)
     return SymStr(SymBytes(n, self.get), "ascii")
